@@ -150,11 +150,13 @@ def run_driver(reqs, timeout):
     return p.returncode, p.stdout.splitlines(), p.stderr[-2000:]
 
 
-def corpus_cases(stream):
-    path = os.path.join(ROOT, "corpus", stream + ".txt")
-    if not os.path.exists(path):
+def corpus_seeds(stream):
+    """seeds that exposed a disagreement in the past: they run first, on every check"""
+    path = os.path.join(ROOT, "corpus", "seeds.json")
+    try:
+        return list(json.load(open(path)).get("streams", {}).get(stream, []))
+    except Exception:
         return []
-    return [l.rstrip("\n") for l in open(path) if l.strip() and not l.startswith("#")]
 
 
 def short(s, n=220):
@@ -219,11 +221,19 @@ def main():
     samples, disagreements = [], []
     if harness_ok and os.path.exists(DRIVER):
         for stream in prop["streams"]:
-            corp = corpus_cases(stream)
+            corp = corpus_seeds(stream)
             rc, cases, stats, other, err = run_harness(stream, tier, seed, tlimit)
             if rc != 0:
                 problems.append(("correspondence", "stream %s: harness exited %d: %s" % (stream, rc, short(err))))
                 continue
+            for cs in corp:
+                if cs == seed:
+                    continue
+                rc_c, cases_c, stats_c, _, _ = run_harness(stream, "quick", cs, tlimit)
+                if rc_c == 0:
+                    cases = cases_c + cases
+                    for k, v in stats_c.items():
+                        stats[k] = stats.get(k, 0) + v
             # corpus lines are requests only: re-ask the implementation through the replay op
             reqs = [c[0] for c in cases]
             rc, answers, derr = run_driver(reqs, tlimit)
@@ -240,7 +250,7 @@ def main():
                 distinct.add(hashlib.sha1(r.encode()).digest()[:10])
             if cases:
                 samples.append({"stream": stream, "request": short(cases[len(cases) // 2][0], 300), "answer": short(cases[len(cases) // 2][1], 200)})
-            stream_info[stream] = {"cases": len(cases), "disagreements": len(bad), "corpus": len(corp), "distribution": stats}
+            stream_info[stream] = {"cases": len(cases), "disagreements": len(bad), "corpus_seeds": corp, "distribution": stats}
 
     # --- implementation-level oracle ---------------------------------------------------------
     oracle = {"ran": False}
